@@ -1185,9 +1185,9 @@ def rule_dep(ctx):
 SPECS = [
     RuleSpec("C01.R1", rule_r1, 30, "A1", "metadata key table: reader and writer agree on key, field and inverse transform"),
     RuleSpec("C01.R2", rule_r2, 1, "A8", "metadata value is everything after the first ':'"),
-    RuleSpec("C01.R3", rule_r3, 33, "A1", "slot coordinates of the five line codecs agree"),
+    RuleSpec("C01.R3", rule_r3, 33, "A1", "slot coordinates of the five line codecs agree; optional trailing field read under a length test with the right bound; no separately truncated sum on a time slot"),
     RuleSpec("C01.R4", rule_r4, 2, "A7", "value<->code functions are involutions K/x with one K"),
-    RuleSpec("C01.R5", rule_r5, 5, "A1", "line classifiers accept exactly the shapes the writers emit, pairwise exclusive"),
+    RuleSpec("C01.R5", rule_r5, 5, "A1", "line classifiers accept exactly the shapes the writers emit (they consult the separator counts and the flag slot only), pairwise exclusive"),
     RuleSpec("C01.R6", rule_r6, 6, "A8", "section markers, slice bounds and key-count order"),
     RuleSpec("C01.R7", rule_r7, 10, "A2", "every list is written and read; readers yield the declared columns"),
     RuleSpec("C01.R8", rule_r8, 2, "A7", "column <-> x are the floor bucket and its midpoint over one width (lemma: mutually inverse for keys < 256)"),
